@@ -7,7 +7,8 @@ from pbt.core import Outcome, Raised, SubCheck, bad, import_dsw, lib_call
 PROPERTY = "C03"
 RULE = ("All 65,536 order-2 vertex masks x thresholds 1..4 are enumerated in both tiers (one case = one mask with "
         "its four thresholds, dtype bool/int alternating); masks of order 1, 3, 4 (5 in thorough) are drawn by "
-        "Hypothesis. Oracle: greatest fixed point on Python sets plus, for t = 1, iterated 'can reach a vertex with "
+        "Hypothesis, and graphs of a few dozen vertices at observed lengths 5..10 (11) - the lengths used in practice - "
+        "are built from the windows of short circular strings; verbose output is switched on for a share of all calls. Oracle: greatest fixed point on Python sets plus, for t = 1, iterated 'can reach a vertex with "
         ">= 2 retained successors' pruning (pbt/oracles.py), itself validated on every run against a literal "
         "enumeration of all subsets for all order-1 masks and for drawn small order-2 masks. Non-trivial: the fixed "
         "point needs >= 2 trimming rounds, or the t = 1 reachability pruning removes something, or the error path.")
@@ -36,7 +37,7 @@ def described_set(description, n):
     return set(values)
 
 
-def check_generation(k, bits, t, as_bool, with_latter_map=True):
+def check_generation(k, bits, t, as_bool, with_latter_map=True, verbose=False):
     """Returns (error detail or None, labels)."""
     dsw = import_dsw()
     n = 4 ** k
@@ -51,7 +52,7 @@ def check_generation(k, bits, t, as_bool, with_latter_map=True):
         labels.append("error_path")
     mask = mask_array(bits, as_bool)
     before = (mask.tobytes(), mask.dtype, mask.shape)
-    result = lib_call(dsw.connect_coding_graph, observed_length=k, vertices=mask, threshold=t)
+    result = lib_call(dsw.connect_coding_graph, observed_length=k, vertices=mask, threshold=t, verbose=verbose)
     if (mask.tobytes(), mask.dtype, mask.shape) != before:
         return "connect_coding_graph modified the caller's mask (k=%d t=%d)" % (k, t), labels
     if isinstance(result, Raised):
@@ -116,7 +117,8 @@ def evaluate_order2(case):
     bits = [(case["mask"] >> i) & 1 for i in range(16)]
     labels, nontrivial = [], False
     for t in (1, 2, 3, 4):
-        detail, lab = check_generation(2, bits, t, as_bool=(case["mask"] + t) % 2 == 0)
+        detail, lab = check_generation(2, bits, t, as_bool=(case["mask"] + t) % 2 == 0,
+                                       verbose=(case["mask"] * 4 + t) % 97 == 0)
         if detail:
             return bad(detail, lab)
         if len(lab) > 2:
@@ -133,15 +135,18 @@ def drawn_cases(draw, tier):
     bits = draw(gens.masks(k))
     t = draw(st.integers(1, 4))
     drop = draw(st.lists(st.integers(0, 4 ** k - 1), min_size=1, max_size=6))
-    return {"k": k, "bits": "".join(map(str, bits)), "t": t, "bool": draw(st.booleans()), "drop": drop}
+    return {"k": k, "bits": "".join(map(str, bits)), "t": t, "bool": draw(st.booleans()), "drop": drop,
+            "verbose": draw(st.integers(0, 4)) == 0}
 
 
 def evaluate_drawn(case):
     dsw = import_dsw()
     k, t = case["k"], case["t"]
     bits = [int(c) for c in case["bits"]]
-    detail, labels = check_generation(k, bits, t, case["bool"])
+    detail, labels = check_generation(k, bits, t, case["bool"], verbose=bool(case.get("verbose")))
     labels.append("k=%d" % k)
+    if case.get("verbose"):
+        labels.append("verbose")
     if detail:
         return bad(detail, labels)
     # metamorphic: a smaller mask never yields a larger graph
@@ -168,6 +173,59 @@ def evaluate_drawn(case):
             labels.append("submask_error")
     return Outcome(True, len(labels) > 3 and any(x in labels for x in
                                                  ("multi_round_trim", "t1_reach_pruning", "error_path")), labels)
+
+
+# ------------------------------------------------------------------------------------------- large k, tiny graphs
+
+@st.composite
+def tiny_cases(draw, tier):
+    k = draw(st.sampled_from([10, 9, 8, 7, 6, 5, 9, 10] if tier == "quick" else [10, 9, 8, 7, 6, 11, 10, 9]))
+    return {"k": k, "vertices": draw(gens.tiny_masks(k)), "t": draw(st.sampled_from([1, 1, 1, 2])),
+            "bool": draw(st.booleans()), "verbose": k <= 8 and draw(st.sampled_from([True, True, False]))}
+
+
+def evaluate_tiny(case):
+    """Same oracle, at the observed lengths used in practice (up to 10/11) with graphs of a few dozen vertices."""
+    import numpy
+    dsw = import_dsw()
+    k, t = case["k"], case["t"]
+    n = 4 ** k
+    mask_set = set(case["vertices"])
+    expected, rounds, pruned = o.largest_closed_subgraph(mask_set, k, t)
+    labels = ["k=%d" % k, "t=%d" % t, "graph" if expected else "error_path"]
+    if case["verbose"]:
+        labels.append("verbose")
+    if expected and len(expected) * 20000 < n:
+        labels.append("graph_below_0.005%")
+    mask = numpy.zeros(n, dtype=bool if case["bool"] else int)
+    mask[sorted(mask_set)] = 1
+    mask = gens.pooled(mask, "mask")
+    result = lib_call(dsw.connect_coding_graph, _twice=k <= 8, observed_length=k, vertices=mask, threshold=t,
+                      verbose=case["verbose"])
+    where = "k=%d t=%d vertices=%s verbose=%s" % (k, t, [o.kmer(v, k) for v in sorted(mask_set)][:8], case["verbose"])
+    if int(mask.sum()) != len(mask_set):
+        return bad("connect_coding_graph modified the caller's mask (%s)" % where, labels)
+    if isinstance(result, Raised):
+        if result.type is not ValueError:
+            return bad("raised %r (%s)" % (result, where), labels)
+        if expected:
+            return bad("raised ValueError although the largest closed sub-graph has %d vertices (%s)"
+                       % (len(expected), where), labels)
+        return Outcome(True, True, labels)
+    if not expected:
+        return bad("returned a graph although the largest closed sub-graph is empty (%s)" % where, labels)
+    try:
+        got_rows = gens.rows_of_accessor(result[1], k)
+    except (ValueError, TypeError) as exc:
+        return bad("malformed result: %s (%s)" % (exc, where), labels)
+    live = {v: r for v, r in enumerate(got_rows) if r}
+    want = {v: sum(1 << j for j, w in enumerate(o.succ(v, k)) if w in expected) for v in expected}
+    if live != want:
+        return bad("accessor differs from the largest closed sub-graph: rows %r, expected %r (%s)"
+                   % (sorted(live.items())[:6], sorted(want.items())[:6], where), labels)
+    if described_set(result[0], n) != set(want):
+        return bad("returned vertex description does not denote the vertices with arcs (%s)" % where, labels)
+    return Outcome(True, True, labels)
 
 
 # ------------------------------------------------------------------------------------------- oracle self-check
@@ -198,6 +256,8 @@ SUBCHECKS = [
     SubCheck("drawn_masks", evaluate_drawn, strategy=drawn_cases, examples=(1500, 20000), shards=(8, 16),
              floors={"multi_round_trim": 50, "t1_reach_pruning": 5, "error_path": 50, "submask_graph": 100},
              rule=RULE),
+    SubCheck("large_k_tiny_graphs", evaluate_tiny, strategy=tiny_cases, examples=(48, 600), shards=(16, 16),
+             floors={"graph": 10, "verbose": 5, "k=10": 3, "k=9": 3}, rule=RULE, timeout=300.0),
     SubCheck("oracle_selfcheck", evaluate_selfcheck, strategy=selfcheck_cases, examples=(400, 2000), shards=(4, 8),
              rule="fixed-point oracle == union of all subsets satisfying the stated closure (brute force)"),
 ]
